@@ -70,6 +70,12 @@ struct Chain<E: El, I: Item<E>> {
     direct: bool,
     /// per tap: did its stream answer Pending the last time it was polled?
     tap_pending: Vec<bool>,
+    /// per segment: the first view mismatch seen at an input-item boundary
+    /// since the view was last right. It becomes a violation only if the view
+    /// is still wrong when the stream is quiescent (Pending / ended): the
+    /// properties speak about those points, and an adapter is free to fetch
+    /// several inputs before it emits.
+    provisional: RefCell<Vec<Option<Violation>>>,
 }
 
 fn narrow<E: El>(kind: StageKind, input: &[E], lim: Option<usize>) -> Vec<E> {
@@ -150,7 +156,7 @@ impl<E: El, I: Item<E>> Chain<E, I> {
                 stages[k].seg = g;
             }
         }
-        Chain { top, pending_stage, log, stages, segs, reps, src_ended: false, ended: false, last_pending: None, flat_out: Vec::new(), direct: cfg.direct, tap_pending: vec![false; 8] }
+        Chain { top, pending_stage, log, stages, segs, reps, src_ended: false, ended: false, last_pending: None, flat_out: Vec::new(), direct: cfg.direct, tap_pending: vec![false; 8], provisional: RefCell::new(vec![None; 8]) }
     }
 
     /// Late stacking: build the pending stage on the dynamic adapter that has
@@ -215,7 +221,7 @@ impl<E: El, I: Item<E>> Chain<E, I> {
         self.flat_out.clear();
         // from the initial values on
         for g in 0..self.segs.len() {
-            self.seg_check(g, cx, st)?;
+            self.seg_check(g, cx, st, true)?;
         }
         Ok(())
     }
@@ -239,17 +245,20 @@ impl<E: El, I: Item<E>> Chain<E, I> {
     }
 
     /// The view of segment g must be the correct view of its input.
-    fn seg_check(&self, g: usize, cx: &Ctx<'_>, st: &mut Stats) -> Result<(), Violation> {
+    fn seg_check(&self, g: usize, cx: &Ctx<'_>, st: &mut Stats, strict: bool) -> Result<(), Violation> {
         let (input, k) = self.seg_input(g);
         let kind = self.stages[k].kind;
         st.hit("boundary_checks");
         match view_ok(kind, &input, self.stages[k].lim, &self.reps[g + 1]) {
-            Ok(()) => Ok(()),
+            Ok(()) => {
+                self.provisional.borrow_mut()[g] = None;
+                Ok(())
+            }
             Err(msg) => {
                 let seg = &self.segs[g];
                 let sig = classify(kind, "view", &seg.last_item, &seg.outputs);
                 let prop = if matches!(seg.last_item, ItemRec::Init) && g > 0 && cx.prop == "C12" { "C12" } else { self.view_prop(g, cx) };
-                Err(viol(
+                let v = viol(
                     prop,
                     cx.step,
                     sig,
@@ -260,7 +269,18 @@ impl<E: El, I: Item<E>> Chain<E, I> {
                         seg.last_item,
                         seg.outputs
                     ),
-                ))
+                );
+                let mut prov = self.provisional.borrow_mut();
+                if strict {
+                    // report the first divergence since the view was last right
+                    Err(prov[g].take().unwrap_or(v))
+                } else {
+                    if prov[g].is_none() {
+                        prov[g] = Some(v);
+                        st.hit("provisional_boundary_mismatches");
+                    }
+                    Ok(())
+                }
             }
         }
     }
@@ -290,6 +310,11 @@ impl<E: El, I: Item<E>> Chain<E, I> {
                 if g == 0 {
                     return Err(viol("C06", cx.step, format!("inapplicable/subscriber/{}", diff_kind(d)), format!("subscriber stream: {e}")));
                 }
+                // an unhealed earlier divergence of this view is the first
+                // divergence; what follows it is a consequence
+                if let Some(pv) = self.provisional.borrow_mut()[g - 1].take() {
+                    return Err(pv);
+                }
                 let seg = &self.segs[g - 1];
                 let k = *seg.stages.last().unwrap();
                 let sig = classify(self.stages[k].kind, "inapplicable", &seg.last_item, &seg.outputs);
@@ -311,6 +336,9 @@ impl<E: El, I: Item<E>> Chain<E, I> {
                             st.mark("view_full_again_after_making_room");
                         }
                         if self.reps[g].len() > l as usize {
+                            if let Some(pv) = self.provisional.borrow_mut()[g - 1].take() {
+                                return Err(pv);
+                            }
                             return Err(viol(
                                 "C15",
                                 cx.step,
@@ -326,6 +354,11 @@ impl<E: El, I: Item<E>> Chain<E, I> {
                 st.mark("adapter_emitted_diff");
             }
         }
+        // C13: after each emitted batch the view is the adapter's view of its
+        // input as it is now (one source batch or one limit change per batch).
+        if I::BATCHED && g > 0 && cx.prop == "C13" {
+            self.seg_check(g - 1, cx, st, true)?;
+        }
         if g < nsegs {
             let view_before = self.reps[g + 1].clone();
             self.segs[g].last_item = ItemRec::Src { diffs, input_before, view_before };
@@ -338,14 +371,14 @@ impl<E: El, I: Item<E>> Chain<E, I> {
 
     fn process(&mut self, ev: Evt<E>, cx: &Ctx<'_>, st: &mut Stats) -> Result<(), Violation> {
         match ev {
-            Evt::SrcPolled(g) => self.seg_check(g, cx, st),
+            Evt::SrcPolled(g) => self.seg_check(g, cx, st, false),
             Evt::LimPolled(k) => {
                 // A boundary of the segment only if k is its lowest stage: an
                 // upper stage of a direct join polls its limit while the stage
                 // below may still hold buffered diffs.
                 let g = self.stages[k].seg;
                 if self.segs[g].stages[0] == k {
-                    self.seg_check(g, cx, st)
+                    self.seg_check(g, cx, st, false)
                 } else {
                     Ok(())
                 }
@@ -471,7 +504,7 @@ impl<E: El, I: Item<E>> Chain<E, I> {
             }
         }
         for g in 0..self.segs.len() {
-            self.seg_check(g, cx, st)?;
+            self.seg_check(g, cx, st, true)?;
         }
         st.hit("quiescent_checks");
         if self.direct {
@@ -481,13 +514,13 @@ impl<E: El, I: Item<E>> Chain<E, I> {
     }
 
     fn drain(&mut self, cx: &Ctx<'_>, st: &mut Stats) -> Result<Polled, Violation> {
-        for _ in 0..200 {
+        for _ in 0..5000 {
             match self.poll(cx, st)? {
                 Polled::Item => continue,
                 other => return Ok(other),
             }
         }
-        Err(viol(cx.prop, cx.step, "never-quiescent", "the stream still yields items after 200 polls".to_string()))
+        Err(viol(cx.prop, cx.step, "never-quiescent", "the stream still yields items after 5000 polls".to_string()))
     }
 }
 
@@ -592,16 +625,34 @@ impl<E: El, I: Item<E>> World<E, I> {
         // C12 / C09: from the initial values on.
         {
             let cx = Ctx { step: 0, prop: self.cfg.prop, model: &self.vec, alive: true };
+            // "from the initial values on" is C12's statement (and C15's for the
+            // length); for the others the first quiescent point decides.
+            let strict = self.cfg.prop == "C12";
             for g in 0..self.main.segs.len() {
-                self.main.seg_check(g, &cx, st)?;
+                self.main.seg_check(g, &cx, st, strict)?;
             }
             if let Some(t) = &self.twin {
                 for g in 0..t.segs.len() {
-                    t.seg_check(g, &cx, st)?;
+                    t.seg_check(g, &cx, st, strict)?;
                 }
             }
             if self.main.segs.len() > 1 {
                 st.mark("initial_values_checked_at_every_stage");
+            }
+            // C15: the initial values already respect a fixed limit.
+            for (g, seg) in self.main.segs.iter().enumerate() {
+                if seg.stages.len() == 1 {
+                    if let StageKind::Head(Lim::Static(l)) | StageKind::Tail(Lim::Static(l)) = self.main.stages[seg.stages[0]].kind {
+                        if self.main.reps[g + 1].len() > l as usize {
+                            return Err(viol(
+                                "C15",
+                                0,
+                                format!("over-limit/{}/initial", self.main.stages[seg.stages[0]].kind.name()),
+                                format!("the initial values have {} items, limit {l}", self.main.reps[g + 1].len()),
+                            ));
+                        }
+                    }
+                }
             }
         }
         self.after_token(st)?;
